@@ -29,6 +29,9 @@ if hasattr(sys, "set_int_max_str_digits"):
     sys.set_int_max_str_digits(0)      # exact levels on re-scaled time axes are rationals with thousands of digits
 
 
+_MARGINS = {"time_residual_max_pass": 0.0, "tolerance": 1e-9, "arr_same_max_ratio_pass": 0.0}   # largest deviations that still passed (flakiness margins)
+
+
 class SolverRaised(Exception):
     pass
 
@@ -183,7 +186,10 @@ def arr_same(a, b, tol=TOL):
     if np.isnan(a).any() or np.isnan(b).any():
         return False
     scale = 1.0 + max(np.abs(a).max(), np.abs(b).max())
-    return bool(np.all(np.abs(a - b) <= tol * scale))
+    ok = bool(np.all(np.abs(a - b) <= tol * scale))
+    if ok and tol > 0:
+        _MARGINS["arr_same_max_ratio_pass"] = max(_MARGINS["arr_same_max_ratio_pass"], float(np.abs(a - b).max() / (tol * scale)))
+    return ok
 
 
 def short(a):
@@ -476,10 +482,45 @@ def time_residual(F, p, ts, method, u):
             r = float("inf")
         if r > worst:
             worst, where = r, k + 1
+    if worst <= TOL:
+        _MARGINS["time_residual_max_pass"] = max(_MARGINS["time_residual_max_pass"], float(worst))
     return worst, where
 
 
 # ----------------------------------------------------------------------------------------------- the check
+def _install_fast_drive(ctx):
+    """The first driver call goes through `ctx.lean.drive` (which builds the model modules under the shared lake lock); later
+    calls of the same run pipe their lines to the same, already built driver directly — one lock acquisition per run instead
+    of one per stream.  Same semantics as `drive` otherwise (one output line per input line, failure raises)."""
+    import os, subprocess, time
+    lean = ctx.lean
+    orig = lean.drive
+    state = {"built": False, "calls": 0, "lines": 0, "seconds": 0.0}
+    ctx.extra_cov["c18_driver_calls"] = state
+
+    def drive(lines, driver=None):
+        if not lines:
+            return []
+        t0 = time.time()
+        state["calls"] += 1; state["lines"] += len(lines)
+        if driver is not None or not state["built"]:
+            out = orig(lines, driver)
+            state["built"] = state["built"] or driver is None
+            state["seconds"] = round(state["seconds"] + time.time() - t0, 2)
+            return out
+        drv = lean.driver_file
+        r = subprocess.run(["lake", "env", "lean", "--run", drv], cwd=os.path.dirname(os.path.dirname(os.path.abspath(drv))),
+                           input="\n".join(lines) + "\n", capture_output=True, text=True, timeout=3000)
+        out = r.stdout.split("\n")
+        if out and out[-1] == "":
+            out.pop()
+        if r.returncode != 0 or len(out) != len(lines):
+            raise RuntimeError(f"driver failed rc={r.returncode} got {len(out)} lines for {len(lines)}:\n" + r.stderr[-3000:] + "\n" + "\n".join(out[-5:]))
+        state["seconds"] = round(state["seconds"] + time.time() - t0, 2)
+        return out
+    lean.drive = drive
+
+
 def run(ctx):
     cuqi = import_cuqi()
     from cuqi.pde import SteadyStateLinearPDE, TimeDependentLinearPDE
@@ -493,30 +534,61 @@ def run(ctx):
     ctx.assumptions += [f"float-vs-exact comparisons at rel+abs {TOL}; inputs are small dyadic rationals so that assembling is exact in floating point",
                         "forms come from the affine family A0+tA1+D^T diag(Ep) D / b0+t b1+Bp / c0+t c1+Cp (heat-type, Poisson-type, general non-symmetric)",
                         "backward Euler is exercised on forms for which I - dt A is well conditioned (plus random general forms screened by condition number)"]
+    _install_fast_drive(ctx)
+    _MARGINS.update(time_residual_max_pass=0.0, arr_same_max_ratio_pass=0.0)
+    ctx.extra_cov["c18_margins"] = _MARGINS
     cov = {"time_method": {}, "time_flavour": {}, "time_grid": {}, "solver": {}, "obs_branch": {}, "tobs_class": {}, "gobs_class": {}, "om": {}, "errors": {}}
     ctx.extra_cov["c18"] = cov
 
     def bump(h, k):
         cov[h][k] = cov[h].get(k, 0) + 1
 
-    check_time_solve(ctx, cuqi, rng, 260 * S, bump)
-    check_steady_solve(ctx, cuqi, rng, 120 * S, bump)
-    check_grids(ctx, cuqi, rng, 80 * S)
-    check_observe_time(ctx, cuqi, rng, 300 * S, bump)
-    check_observe_steady(ctx, cuqi, rng, 120 * S, bump)
-    check_pipeline(ctx, cuqi, rng, 150 * S, bump)
-    check_gradient(ctx, cuqi, rng, 64 * S)
-    check_solve_histories(ctx, cuqi, rng, 70 * S, bump)
-    check_histories(ctx, cuqi, rng, 60 * S, bump)
-    check_testproblems(ctx, cuqi, rng, thorough)
+    # every stream is a generator: it yields its driver lines and receives the model's outputs; the lines of all streams go to
+    # the driver in ONE call per round (the round-8 stream needs a second round)
     from harness.props.c18_testproblems import check_testproblem_models
-    check_testproblem_models(ctx, cuqi, rng, thorough)
     from harness.props.c18_history import check_object_histories
-    check_object_histories(ctx, cuqi, rng, 40 * S)
     from harness.props.c18_shapes import check_shapes
-    check_shapes(ctx, cuqi, rng)
     from harness.props.c18_round8 import check_round8
-    check_round8(ctx, cuqi, rng)
+    _np_state = np.random.get_state()      # (two streams seed numpy's global RNG for the test-problem constructors)
+    try:
+      _drive_together(ctx, [
+        check_time_solve(ctx, cuqi, rng, 260 * S, bump),
+        check_steady_solve(ctx, cuqi, rng, 120 * S, bump),
+        check_grids(ctx, cuqi, rng, 80 * S),
+        check_observe_time(ctx, cuqi, rng, 300 * S, bump),
+        check_observe_steady(ctx, cuqi, rng, 120 * S, bump),
+        check_pipeline(ctx, cuqi, rng, 150 * S, bump),
+        check_gradient(ctx, cuqi, rng, 64 * S),
+        check_solve_histories(ctx, cuqi, rng, 70 * S, bump),
+        check_histories(ctx, cuqi, rng, 60 * S, bump),
+        check_testproblems(ctx, cuqi, rng, thorough),
+        check_testproblem_models(ctx, cuqi, rng, thorough),
+        check_object_histories(ctx, cuqi, rng, 40 * S),
+        check_shapes(ctx, cuqi, rng),
+        check_round8(ctx, cuqi, rng),
+      ])
+    finally:
+        np.random.set_state(_np_state)
+
+
+def _drive_together(ctx, gens):
+    active = []
+    for g in gens:
+        try:
+            active.append((g, list(next(g))))
+        except StopIteration:
+            pass
+    while active:
+        all_lines = [ln for _, lines in active for ln in lines]
+        outs = ctx.lean.drive(all_lines) if all_lines else []
+        nxt, pos = [], 0
+        for g, lines in active:
+            part = outs[pos:pos + len(lines)]; pos += len(lines)
+            try:
+                nxt.append((g, list(g.send(part))))
+            except StopIteration:
+                pass
+        active = nxt
 
 
 # ----------------------------------------------------------------------------------------------- A. time stepping
@@ -618,7 +690,7 @@ def check_time_solve(ctx, cuqi, rng, ncases, bump):
         cases.append(dict(n=n, flavour=flavour, F=F, p=p, method=method, ts=ts, skind=skind, gridkind=gridkind, variant=variant, bufmode=bufmode))
         _, _, dk = make_solver(skind)
         lines.append(f"time {n} {method if method else '-'} {dk} {qv(ts)} {fam_tokens(F)} {qv(p)}")
-    outs = ctx.lean.drive(lines)
+    outs = yield lines
     for cs, out in zip(cases, outs):
         n, F, p, method, ts, skind = cs["n"], cs["F"], cs["p"], cs["method"], cs["ts"], cs["skind"]
         desc = {"n": n, "flavour": cs["flavour"], "method": method, "ts": [float(t) for t in ts], "solver": skind,
@@ -776,7 +848,7 @@ def check_steady_solve(ctx, cuqi, rng, ncases, bump):
         _, _, dk = make_solver(skind)
         optok = "|".join("s" if o == "s" else "a:" + qv(p) for o, p in ops)
         lines.append(f"steady {n} {dk} {fam_tokens(F)} {npar} {optok}")
-    outs = ctx.lean.drive(lines)
+    outs = yield lines
     for cs, out in zip(cases, outs):
         n, F, ops, skind = cs["n"], cs["F"], cs["ops"], cs["skind"]
         desc = {"n": n, "flavour": cs["flavour"], "solver": skind, "ops": [[o, None if p is None else [float(x) for x in p]] for o, p in ops]}
@@ -897,7 +969,7 @@ def check_grids(ctx, cuqi, rng, ncases):
         cases.append(ops)
         toks = [f"init:{grid_tok(a)}:{grid_tok(b)}"] + [f"{o}:{grid_tok(v)}" for o, v, _ in ops[1:]]
         lines.append("grids " + "|".join(toks))
-    outs = ctx.lean.drive(lines)
+    outs = yield lines
     for ops, out in zip(cases, outs):
         desc = {"ops": [[o, None if a is None else a.tolist(), None if (b is None or o != "init") else b.tolist()] for o, a, b in ops]}
         ctx.case("grid-setters", desc, nontrivial=len(ops) > 1)
@@ -1218,7 +1290,7 @@ def check_observe_time(ctx, cuqi, rng, ncases, bump):
         cs["W"] = W
         gops = f"init:{grid_tok(gs)}:{grid_tok(go)}"
         lines.append(f"obst {gops} {qv(ts)} {cs['ttok']} {cs['ndim']} {qm(cs['U'])} {Wtok} {omtok}")
-    outs = ctx.lean.drive(lines)
+    outs = yield lines
     for cs, out in zip(cases, outs):
         gs = None if cs["grid_sol_none"] else cs["gs"]
         go, ts, U, om, res = cs["go"], cs["ts"], cs["U"], cs["om"], cs["tres"]
@@ -1362,8 +1434,8 @@ def check_observe_steady(ctx, cuqi, rng, ncases, bump):
         gtok = "|".join([f"init:{grid_tok(gs)}:{grid_tok(go)}"] + [f"{o}:{grid_tok(v)}" for o, v, _ in gops[1:]])
         lines.append(f"obss {gtok} {qv(u)} {Wtok} {omtok}")
         qlines.append(f"obsq {gtok} {qv(u)} {omtok}")
-    outs = ctx.lean.drive(lines)
-    qouts = ctx.lean.drive(qlines)        # session 3: the same cases with the model's own exact quadratic spline (no leaf data)
+    allouts = yield lines + qlines        # session 3: qlines = the same cases with the model's own exact quadratic spline (no leaf data)
+    outs, qouts = allouts[:len(lines)], allouts[len(lines):]
     spl = ctx.extra_cov.setdefault("c18_exact_spline", {"compared": 0, "both_refuse": 0, "interp_values": 0})
     for cs, out, qout in zip(cases, outs, qouts):
         gs, go, u, om = cs["gs"], cs["go"], cs["u"], cs["om"]
@@ -1561,7 +1633,7 @@ def check_pipeline(ctx, cuqi, rng, ncases, bump):
             lines.append(f"pipes {cs['N']} {cs['dk']} {fam_tokens(F)} {qv(xfun)} {gtok} {Wtok} {cs['omtok']}")
         else:
             lines.append(f"pipet {cs['N']} {cs['method']} {cs['dk']} {qv(cs['ts'])} {fam_tokens(F)} {qv(xfun)} {gtok} {cs['ttok']} {Wtok} {cs['omtok']}")
-    outs = ctx.lean.drive(lines)
+    outs = yield lines
     for cs, out in zip(cases, outs):
         desc = {"kind": cs["kind"], "flavour": cs["flavour"], "N": cs["N"], "x": cs["x"].tolist(), "grid_sol": cs["gs"].tolist(),
                 "grid_obs": None if cs["go"] is None else cs["go"].tolist(), "solver": cs["skind"], "obs_map": cs["omtok"], "mapped_domain": cs["mapped"],
@@ -1668,7 +1740,7 @@ def check_gradient(ctx, cuqi, rng, ncases):
         Jret = J + 1.0 if jwrong else J
         cases.append(dict(N=N, npar=npar, steady=steady, cap=cap, gs=gs, go=go, F=F, ts=ts, method=method, J=Jret, direction=direction, wrt=wrt, gret=gret, wrong=wrong))
         lines.append(f"grad {cap} {len(idx)} {qv(direction)} {qm(Jret) if cap in ('j', 'gj') else '-'} {qv(gret) if cap in ('g', 'gj') else '-'}")
-    outs = ctx.lean.drive(lines)
+    outs = yield lines
     for cs, out in zip(cases, outs):
         F, cap = cs["F"], cs["cap"]
         desc = {"pde": "steady" if cs["steady"] else "time:" + cs["method"], "caps": cap, "N": cs["N"], "npar": cs["npar"], "direction": cs["direction"].tolist(),
@@ -1862,7 +1934,7 @@ def check_solve_histories(ctx, cuqi, rng, ncases, bump):
             if not np.array_equal(kept, copy_):
                 ctx.fail("PDE.solve:history:retained-output-overwritten", {"history": hist}, "arrays returned earlier unchanged", "overwritten by a later call",
                          "a later call overwrites a solution array returned earlier")
-    outs = ctx.lean.drive([p_[0] for p_ in pending])
+    outs = yield [p_[0] for p_ in pending]
     for (line, u, herr, key, desc, bad), out in zip(pending, outs):
         mo = out.split("|")[-1] if line.startswith("steady") else out
         if mo.startswith("err:"):
@@ -2149,7 +2221,7 @@ def check_histories(ctx, cuqi, rng, ncases, bump):
         missing = [o for o in ("fwd_new", "fwd_inplace", "fwd_equal_copy", "fwd_other_model", "set_grid_obs", "set_om", "set_method", "set_ts", "manual", "grad") if cov.get(o, 0) < 3]
         if missing:
             raise RuntimeError(f"history generator does not exercise {missing} (generator broken)")
-    outs = ctx.lean.drive([p_[0] for p_ in pending])
+    outs = yield [p_[0] for p_ in pending]
     for (line, y, key, desc), out in zip(pending, outs):
         if out.startswith("err:") or out == "bad-op":
             ctx.disagree(key, desc, out, short(y), "model refuses, implementation returns")
@@ -2255,7 +2327,7 @@ def check_testproblems(ctx, cuqi, rng, thorough):
                     Wtok = "err"
                 lines.append(f"pipet {n} {pde.method} plain {qv(ts)} {fam_tokens(F)} {qv(x)} init:{grid_tok(gs)}:{grid_tok(go)} str:final {Wtok} id")
             cases.append((key, desc, y, res))
-        outs = ctx.lean.drive(lines)
+        outs = yield lines
         for (key, desc, y, res), out in zip(cases, outs):
             bad = False
             if not res <= TOL:
